@@ -531,7 +531,8 @@ def run(ctx):
         capped = any(o["capped"] for o in outs)
         if capped:
             ctx.exhaustive = False
-        if execs == 0 and not any(o["violations"] for o in outs):
+        if execs == 0 and not capped and \
+                not any(o["violations"] for o in outs):
             raise core.HarnessError(
                 "configuration %s: no complete execution was explored" % name)
         per[name] = {
